@@ -255,7 +255,15 @@ PROPS = {
                       "DOE loop (BaseDOELibrary._run, n_processes <= 1): loop invariant 'samples 0..k-1 have each been handed once, in order, to "
                       "EvaluationProblem.evaluate_functions' (ghost evaluation log), a failing sample (ValueError) is skipped, termination criteria propagate, "
                       "nothing else is raised; with Database.store's order clauses an induction lemma gives: keys created by earlier samples precede keys "
-                      "created by later ones. Two budget clauses FAIL on the pinned tree and are recorded as known findings, each proved outside its failing "
+                      "created by later ones. Parallel DOE branch (_run@parallel, n_processes > 1, use_database): loop invariant of the pre-registration loop - after k "
+                      "iterations every PHYSICAL sample self.samples[j], j < k, has a database entry, existing keys keep their positions, and the new keys stand "
+                      "in the order of their first occurrences (first-index function) - stated over self.samples whatever the loop iterates; the parallel execution "
+                      "is the summary of the C13 contract (each callback exactly once per successful task, ANY order) composed with the verified contract of the "
+                      "callback __store_in_database (outputs of sample `index`, Jacobians under the gradient names, stored under the key of self.samples[index]; order "
+                      "kept), its precondition 'every sample has a registered entry' being proved at the call site; induction lemmas (ParallelStoreLemmas) show that "
+                      "the summary's clauses hold for every completion order (arbitrary permutation); after remove_empty_entries: every successfully evaluated "
+                      "sample is recorded with the names of its own outputs/Jacobians, the recorded new keys stand in generation order, only sample keys were added "
+                      "and no empty placeholder is left. Two budget clauses FAIL on the pinned tree and are recorded as known findings, each proved outside its failing "
                       "region and replayed on the real code at every run: 'LagrangeMultipliers.__init__ leaves the evaluation counter of the problem "
                       "unchanged' (region counter-is-nonzero) and 'once the maximum is reached the evaluation entry points of ProblemFunction evaluate nothing' "
                       "for the entry points used without a database (_compute_output / _compute_jacobian@no-database, region database-not-used).",
@@ -285,11 +293,16 @@ PROPS = {
             "execute is analysed with the **settings passed by the caller replaced by the validated settings dictionary (assumed to hold every BaseDriverSettings field)",
             "c03_lmem(n, E, f) is defined as `exists i. 0 <= i < n and E[i] == f`; the first-occurrence choice of list.remove is CPython's",
             "DOE: user callbacks of the sequential loop are the default (none); samples are a sequence of opaque rows",
+            "parallel DOE: CallableParallelExecution.execute(self.samples, exec_callback=[self.__store_in_database]) is the summary of its C13 contract; c03_task_ok / "
+            "c03_task_data / c03_task_jac name the outcome of task i (the worker's evaluation happens in another process and is not tracked); "
+            "Database.remove_empty_entries is an assumed summary (exactly the entries without output are removed, relative order kept) whose body shape is checked on the AST; "
+            "c03_first_index(key) is DEFINED as the index of the first sample with that key; `problem` is `self._problem` (execute binds the driver before the run)",
         ],
         "not_covered": ["use_database=False: known finding (no budget clause holds; only the failing clause on the two entry points is stated)",
                         "kkt_residual_computation, _KKTChecker, KKTConditionsTester, LagrangeMultipliers.compute (only LagrangeMultipliers.__init__ is under contract: known finding); "
                         "bodies of EvaluationProblem.reset / OptimizationProblem.reset (assumed summary, counter clause checked on the AST)",
-                        "BaseOptimizationLibrary._pre_run / BaseDOELibrary._pre_run bodies (summarised), parallel DOE branch and __store_in_database (C13), DOE user callbacks",
+                        "BaseOptimizationLibrary._pre_run / BaseDOELibrary._pre_run bodies (summarised), parallel DOE: user callbacks, use_database=False, values (not only names) of the recorded outputs after the whole branch, listeners notified by the stores; sequential DOE user callbacks; a sample failing part-way is kept (partial entry) by the sequential branch and dropped by "
+                        "the parallel one (observation, replayed natively)",
                         "OptimizationResult.from_optimization_problem body (assumed; KeyError region of the C04 finding)", "third-party optimiser wrappers (_run of each library)",
                         "restart clause: BaseScenario.set_optimization_history_backup sets evaluation_counter.current = len(database) after loading a backup (pathlib / HDF I/O "
                         "not modelled); note that _init_iter_observer resets the counter to 0 unless reset_iteration_counters=False",
@@ -312,7 +325,12 @@ PROPS = {
                       "cache serves the same entries); HDF5FileSingleton.has_group / clear; (6) get_all_entries / __iter__ of BaseFullCache, HDF5Cache and SimpleCache "
                       "enumerate the entries 1..len(cache) in index order with their stored inputs, outputs and Jacobian. The call-site preconditions the storage "
                       "specification needs for a file-based store (index unused / group absent / inputs written first / index >= 1 / inputs present) are proved at every "
-                      "call site of BaseFullCache, with the new invariant clause `nothing is stored beyond max_index`.",
+                      "call site of BaseFullCache, with the new invariant clause `nothing is stored beyond max_index`; (7) BaseDiscipline.__can_load_cache with a FULL "
+                      "cache (data-converter branch, exact matching): True iff the entry of the input data has outputs, the local data are the inputs merged with the "
+                      "converted cached outputs, and nothing of the cache changes - in particular no dictionary the cache handed out is written to: the results of the "
+                      "read contracts (_read_data, __getitem__, last_entry, _read_input_output_data) are registered as POSSIBLE ALIASES of the stored entry "
+                      "(MemoryFullCache(is_memory_shared=False) returns the stored dictionary itself), any write into one sets the ghost `fc_entry_written`, which no "
+                      "contract has in its frame.",
         "level_note": "Trusted: pyvc VC generator and its dict/list/set models, z3/cvc5, arrays as opaque contents in a symbolic heap (allocation only, no "
                       "in-place modification inside the verified functions), compare_dict_of_arrays / hash_data / flatten-nest of Jacobians assumed, "
                       "ghost code in __ensure_input_data_exists (ghost variables only), DictProxy stores pickled copies, IO/grammar/_run environment of "
@@ -335,6 +353,8 @@ PROPS = {
             "HDF5FileSingleton.__open / keep_open / __close (the file-handle protocol) are not verified: `with self.__open()` gives access to the persistent content; inside keep_open a "
             "file operation leaves the handle open (assumed clause `file-handle` of HDF5Cache._read_data), which is what exposes the AssertionError of get_all_entries on an empty cache",
             "BaseFullCache._all_groups (sorted(chain(*tolist()))) is assumed to be [1..max_index] under the representation invariant",
+            "data converters: convert_array_to_value(name, array) is a function of the name and of the content of the array and does not modify the array (a Python scalar/str value is an "
+            "opaque content in the array heap); a dictionary returned by a cache read may be the stored one - `d.copy()` is not",
             "a multiprocessing manager DictProxy stores a pickled deep copy of an assigned value (MemoryFullCache(is_memory_shared=True))",
             "multiprocessing.Value cells and the index arrays of _hashes_to_indices are modelled as integer cells / lists of integers; lock decorators are identity",
             "BaseDiscipline.execute: SimpleCache policy, no data processor, grammar validation has no effect, prepare_input_data is a function of the data passed in, "
@@ -343,7 +363,7 @@ PROPS = {
         "not_covered": ["HDF5Cache.__init__ (construction of the singleton file handler, file format version check), _copy_empty_cache, update_file_format, __getstate__/__setstate__ (C20); "
                         "that the file a NEW session finds satisfies the invariants the previous session left it with is the precondition of _read_hashes (nothing else writes the node)",
                         "multi-process locking; two HDF5Cache objects on the same node", "Discipline.linearize Jacobian-cache protocol",
-                        "BaseDiscipline.execute with MemoryFullCache/HDF5Cache (data converter branches)", "in-place modification of inputs by _run",
+                        "BaseDiscipline.execute / _store_cache with MemoryFullCache/HDF5Cache (convert_value_to_array on the way in; __can_load_cache with a full cache IS covered, for exact matching)", "in-place modification of inputs by _run",
                         "BaseCache.input_names/output_names/names_to_sizes (cached names), update, __add__, __setitem__, to_dataset (pandas), to_ggobi; MemoryFullCache.copy",
                         "arrays returned by a lookup are shared with the cache (SimpleCache, MemoryFullCache not shared): modifying them in place changes the cached entry",
                         "compare_dict_of_arrays itself (assumed contract)"],
@@ -543,7 +563,7 @@ PROPS = {
                       "the shared counters are not excluded (carried over as values); proofs on the real source of the no-op hooks of Serializable, BaseDOELibrary/DirectoryCreator._init_shared_memory_attrs_after "
                       "(NEW lock / NEW shared cell), AnalyticDiscipline/SobieskiDiscipline.__setstate__ (through the contract of Serializable.__setstate__), CustomTqdmProgressBar, DisciplineData and "
                       "PydanticGrammar.__getstate__/__setstate__ with their round-trip lemmas; every attribute bound to a multiprocessing/threading lock is kept out of the state. "
-                      "Four known findings (ScalableDiscipline, XLSDiscipline, MemoryFullCache, DirectoryCreator: see known_findings.json).",
+                      "DirectoryCreator (a94ccfa): the excluded lock is re-created whenever the original holds one (class lemma over the verified hook). Three known findings (ScalableDiscipline, XLSDiscipline, MemoryFullCache: see known_findings.json).",
         "level_note": "Instance dictionaries are modelled as a dict field; attribute values are opaque with recognisable kinds (Synchronized / Path / PurePath / lock / stream / pydantic model class). "
                       "The hierarchy lemmas of c20_classes.py are facts computed from the parsed source (ground obligations), not symbolic executions; picklability is only addressed for locks.",
         "design_ref": "DESIGN.md §4 C20",
